@@ -2326,6 +2326,9 @@ void copy_api_from_app(
     //Film Grain
     scs_ptr->static_config.film_grain_denoise_strength = ((EbSvtAv1EncConfiguration*)config_struct)->film_grain_denoise_strength;
     scs_ptr->film_grain_denoise_strength = scs_ptr->static_config.film_grain_denoise_strength;
+    // Film grain parameters may be present in any frame once grain synthesis is requested. Leaving the flag to be
+    // raised by picture analysis made the sequence header depend on how far the analysis had run ahead of packetization
+    scs_ptr->seq_header.film_grain_params_present = (uint8_t)(scs_ptr->film_grain_denoise_strength > 0);
 
     // MD Parameters
     scs_ptr->static_config.enable_hbd_mode_decision = ((EbSvtAv1EncConfiguration*)config_struct)->encoder_bit_depth > 8 ? ((EbSvtAv1EncConfiguration*)config_struct)->enable_hbd_mode_decision : 0;
